@@ -184,7 +184,7 @@ func ltPatternObs(pattern string) []string {
 		case 'l':
 			recv = sentAt + 1
 			obs = append(obs, fmt.Sprintf("0 0 0 %d %d 0 0 %d", sentAt, recv, recv))
-		case 'g':
+		case 'g', 'd':
 			obs = append(obs, fmt.Sprintf("0 0 0 %d %d 0 0 %d", sentAt, recv, recv))
 			recv = sentAt + 50
 		}
@@ -286,6 +286,15 @@ func ltRun(s ltScenario, scale int) ltOutcome {
 				go func() {
 					time.Sleep(t6 + interval/2)
 					_ = p.Send(life)
+				}()
+			case 'd':
+				// slow but alive: the probe IS answered, only later than T6 — by then the transaction is closed,
+				// the late Linktest.rsp is an orphan (answered with Reject.req), but it is a received frame and
+				// therefore life between probe timeouts (added after seeded change C19a-2 was missed)
+				sys := f.Sys()
+				go func() {
+					time.Sleep(t6 + interval/2)
+					_ = p.Send(mkFrame(0xFFFF, 0, 0, 0, 6, sys, nil))
 				}()
 			}
 		}
@@ -420,10 +429,10 @@ func ltJudge(s ltScenario, o ltOutcome, pred ltPrediction, havePred bool, scale 
 				}
 			}
 		}
-		if !strings.Contains(s.pattern, "i") && !strings.Contains(s.pattern, "g") && s.suppress && o.disconnected {
+		if !strings.Contains(s.pattern, "i") && !strings.Contains(s.pattern, "g") && !strings.Contains(s.pattern, "d") && s.suppress && o.disconnected {
 			add("property", "live-link-dropped", "peer answered or showed life after every probe, yet the linktest disconnected it")
 		}
-		if s.suppress && s.k >= 2 && strings.Trim(s.pattern, "gla") == "" && o.disconnected {
+		if s.suppress && s.k >= 2 && strings.Trim(s.pattern, "glad") == "" && o.disconnected {
 			add("property", "live-link-dropped", "every probe timeout was preceded by life, yet the linktest disconnected (threshold >= 2)")
 		}
 		// oracle for scripts without life frames (or with suppression off, where life is irrelevant): the link is
@@ -515,6 +524,7 @@ func c19Scenarios(c *Ctx) []ltScenario {
 			}
 			ss = append(ss, ltScenario{"pattern", "llllll", act, sup, 2})  // slow but alive
 			ss = append(ss, ltScenario{"pattern", "gggggg", act, sup, 2})  // life between probes
+			ss = append(ss, ltScenario{"pattern", "dddddd", act, sup, 2})  // every probe answered, but later than T6
 			ss = append(ss, ltScenario{"pattern", "iaiaiia", act, sup, 2}) // intermittent
 			ss = append(ss, ltScenario{"chatty", "", act, sup, 2})
 			ss = append(ss, ltScenario{"busy", "", act, sup, 3})
